@@ -17,6 +17,7 @@ import (
 	"time"
 
 	"verif.local/sim/core"
+	"verif.local/sim/simrt"
 )
 
 // childResult is what one child process produced.
@@ -163,6 +164,9 @@ type death struct {
 	stderr string
 	timedOut bool
 	race   bool
+	entry  string // from the black box: what was being handed to the library
+	input  []byte
+	hasBox bool
 }
 
 func newBatch() *batch {
@@ -219,7 +223,7 @@ func (b *batch) absorb(res *childResult, hashFile string) {
 // fanOutSeeds runs `total` seeded runs of a property over `workers` children.
 // Worker w executes run indices w, w+workers, … . When a child dies in run k
 // the death is recorded and the worker is restarted after k.
-func fanOutSeeds(b *batch, bin string, prop, tier string, seed uint64, total uint64, workers int, env []string, memKB int64, samplesPerWorker int, deadline time.Time, race bool) {
+func fanOutSeeds(b *batch, bin string, prop, tier string, seed uint64, total uint64, workers int, env []string, memKB int64, samplesPerWorker int, deadline time.Time, race bool, blackbox bool, stall time.Duration) {
 	if uint64(workers) > total {
 		workers = int(total)
 	}
@@ -238,6 +242,14 @@ func fanOutSeeds(b *batch, bin string, prop, tier string, seed uint64, total uin
 				args := []string{"run", "--prop", prop, "--tier", tier,
 					"--seed", fmt.Sprint(seed), "--from", fmt.Sprint(from), "--to", fmt.Sprint(total),
 					"--stride", fmt.Sprint(workers), "--samples", fmt.Sprint(samplesPerWorker), "--hashes", hashFile}
+				boxFile := ""
+				if blackbox {
+					boxFile = filepath.Join(filepath.Dir(bin), fmt.Sprintf("blackbox.%s.%d", prop, w))
+					args = append(args, "--blackbox", boxFile)
+				}
+				if stall > 0 {
+					args = append(args, "--stall", stall.String())
+				}
 				to := time.Until(deadline)
 				if to < time.Second {
 					to = time.Second
@@ -255,7 +267,11 @@ func fanOutSeeds(b *batch, bin string, prop, tier string, seed uint64, total uin
 				}
 				// the child died: attribute to the run whose B line was last
 				b.mu.Lock()
-				b.deaths = append(b.deaths, death{k: res.lastB, exit: res.exitCode, signal: res.signal, stderr: tailStr(res.stderr, 16000), race: race})
+				d := death{k: res.lastB, exit: res.exitCode, signal: res.signal, stderr: headTail(res.stderr, 12000), race: race}
+				if boxFile != "" {
+					d.entry, d.input, d.hasBox = simrt.ReadBlackBox(boxFile)
+				}
+				b.deaths = append(b.deaths, d)
 				// runs completed before the death are not in a summary; count them
 				if res.lastB >= int64(from) {
 					b.runs += int((uint64(res.lastB)-from)/uint64(workers)) + 1
@@ -281,7 +297,7 @@ func fanOutSeeds(b *batch, bin string, prop, tier string, seed uint64, total uin
 }
 
 // fanOutEnum runs the property's exhaustive enumerator in `shards` children.
-func fanOutEnum(b *batch, bin string, prop, tier string, shards int, env []string, memKB int64, deadline time.Time) {
+func fanOutEnum(b *batch, bin string, prop, tier string, shards int, env []string, memKB int64, deadline time.Time, blackbox bool, stall time.Duration) {
 	var wg sync.WaitGroup
 	for sh := 0; sh < shards; sh++ {
 		wg.Add(1)
@@ -289,6 +305,14 @@ func fanOutEnum(b *batch, bin string, prop, tier string, shards int, env []strin
 			defer wg.Done()
 			hashFile := filepath.Join(filepath.Dir(bin), fmt.Sprintf("hashes.enum.%s.%d", prop, sh))
 			args := []string{"enum", "--prop", prop, "--tier", tier, "--shard", fmt.Sprint(sh), "--shards", fmt.Sprint(shards), "--hashes", hashFile}
+			boxFile := ""
+			if blackbox {
+				boxFile = filepath.Join(filepath.Dir(bin), fmt.Sprintf("blackbox.enum.%s.%d", prop, sh))
+				args = append(args, "--blackbox", boxFile)
+			}
+			if stall > 0 {
+				args = append(args, "--stall", stall.String())
+			}
 			to := time.Until(deadline)
 			if to < time.Second {
 				to = time.Second
@@ -300,7 +324,11 @@ func fanOutEnum(b *batch, bin string, prop, tier string, shards int, env []strin
 				if res.timedOut {
 					b.extra["deadline_reached"] = true
 				} else {
-					b.deaths = append(b.deaths, death{k: -1, group: res.lastG, exit: res.exitCode, signal: res.signal, stderr: tailStr(res.stderr, 16000)})
+					d := death{k: -1, group: res.lastG, exit: res.exitCode, signal: res.signal, stderr: headTail(res.stderr, 12000)}
+					if boxFile != "" {
+						d.entry, d.input, d.hasBox = simrt.ReadBlackBox(boxFile)
+					}
+					b.deaths = append(b.deaths, d)
 				}
 				b.mu.Unlock()
 			}
@@ -314,6 +342,15 @@ func tailStr(s string, n int) string {
 		return s[len(s)-n:]
 	}
 	return s
+}
+
+// headTail keeps the beginning (where the Go runtime prints the fatal message
+// and the faulting goroutine) and the end of a long stderr.
+func headTail(s string, n int) string {
+	if len(s) <= 2*n {
+		return s
+	}
+	return s[:n] + "\n[...]\n" + s[len(s)-n:]
 }
 
 // runPlan replays a plan in a fresh child process and returns its record;
